@@ -169,13 +169,17 @@ add("C15",
     "machine-checked proof in Coq (paging independence, join laws, bijection) + fs-vs-S3 differential on histories")
 
 add("C16",
-    "Coq theorems over the S3 request programs (Model/S3.v): in every fault-free commit the PUT of the root inventory follows every PUT below vN/ "
-    "and precedes the sidecar; for EVERY fault position outside the recorded known classes the commit reports an error, leaves every earlier key "
-    "and the previous root inventory pair unchanged, leaves no key of vN and keeps the staged version, and the retry succeeds; refused commits send "
-    "nothing; witness lemmas inside the classes (root inventory deleted by rollback, walk order of new objects, declaration swap). Search: real "
-    "library on the stand-in, every mutating request of every commit failed once with HTTP 500 and once by dropping the connection, then keys, "
-    "read-back, staged state and retry checked; order oracle on the request log. Correspondence: model request sequence and final bucket vs log.",
-    "As C15. Known findings: root-inventory-rollback, new-object-walk-order.",
+    "Coq theorems over the S3 request programs (Model/S3.v, two oracles: the k-th mutating request / the j-th read fails once): for every "
+    "directory walk a new object's requests are the ordinary files, then the root inventory.json, then its sidecar; a fault-free version commit "
+    "from a ready bucket succeeds with requests = reads of what it replaces, everything below vN/, root inventory, root sidecar, declaration "
+    "swap; for EVERY failing mutating request (upload, root inventory, root sidecar, declaration PUT/DELETE of an upgrade) the commit reports an "
+    "error and every key reads as before the commit, nothing is left below vN/, the bucket is ready again and the retry succeeds; a failing "
+    "read ends the commit before its first write; refused commits send nothing; historical `_before_fix` lemmas show the old violations. Search: "
+    "real library on the stand-in, every mutating request and every read of every commit failed once with HTTP 500 and once by dropping the "
+    "connection, then keys, read-back, staged state and retry checked; order oracle on the request log. Correspondence: model request sequence "
+    "(incl. GETs and restore PUTs) and final bucket vs log.",
+    "As C15. No known finding left (new-object-walk-order, root-inventory-rollback repaired by 4953bf6, 9053efb; read-before-upload 862b96a). A "
+    "second failure during the rollback is outside the single-failure quantifier. Keeping the staged version is observed, not modelled.",
     "machine-checked proof in Coq (all fault positions of the request programs) + request-level fault enumeration on the S3 stand-in")
 
 add("C17",
